@@ -1,6 +1,7 @@
 use crate::core::Property;
 
 pub mod agent_parts;
+pub mod bin_parts;
 pub mod c01;
 pub mod c04;
 pub mod c05;
@@ -16,8 +17,9 @@ pub mod c14;
 pub mod c15;
 pub mod c16;
 pub mod c19;
+pub mod c20;
 pub mod e2e;
 
 pub fn all() -> Vec<Property> {
-    vec![c01::property_c01(), c01::property_c02(), c01::property_c03(), c04::property(), c05::property_c05(), c05::property_c18(), c19::property(), c06::property(), c07::property(), c08::property(), c09::property(), c10::property(), c11::property_c11(), c11::property_c17(), c12::property(), c13::property(), c14::property(), c15::property(), c16::property()]
+    vec![c01::property_c01(), c01::property_c02(), c01::property_c03(), c04::property(), c05::property_c05(), c05::property_c18(), c19::property(), c20::property(), c06::property(), c07::property(), c08::property(), c09::property(), c10::property(), c11::property_c11(), c11::property_c17(), c12::property(), c13::property(), c14::property(), c15::property(), c16::property()]
 }
